@@ -102,6 +102,63 @@ const (
 	inflightSnapshot
 )
 
+// twoNewTermsBody: two new-term requests of different terms arrive at a node that leads the shard (a delayed
+// request of a superseded election and the current one). Whatever the order, the term the node's database
+// holds afterwards is the highest term it answered for: a restart must not take it back.
+func twoNewTermsBody() func(s *vsched.Sched) {
+	return func(s *vsched.Sched) {
+		s.Explore(false)
+		env := oxc.NewEnv(s)
+		kvf, err := kv.NewPebbleKVFactory(&kv.FactoryOptions{DataDir: filepath.Join(env.Dir, "n1", "db"), CacheSizeMB: 1})
+		if err != nil {
+			s.Fail("harness-setup", err.Error())
+			return
+		}
+		walf := wal.NewWalFactory(&wal.FactoryOptions{BaseWalDir: filepath.Join(env.Dir, "n1", "wal"), Retention: time.Hour, SegmentSize: 64 * 1024, SyncData: true})
+		lc, err := server.NewLeaderController(server.Config{NotificationsRetentionTime: time.Hour}, ns, shard, oxc.NewNet(), walf, kvf)
+		opts := &proto.NewTermOptions{EnableNotifications: true}
+		if err == nil {
+			_, err = lc.NewTerm(&proto.NewTermRequest{Namespace: ns, Shard: shard, Term: 5, Options: opts})
+		}
+		if err == nil {
+			_, err = lc.BecomeLeader(context.Background(), &proto.BecomeLeaderRequest{Namespace: ns, Shard: shard, Term: 5, ReplicationFactor: 1, FollowerMaps: map[string]*proto.EntryId{}})
+		}
+		if err != nil {
+			s.Fail("harness-setup", err.Error())
+			return
+		}
+		defer func() {
+			_ = lc.Close()
+			_ = walf.Close()
+			_ = kvf.Close()
+		}()
+		s.Settle()
+		s.Explore(true)
+		answered := int64(5)
+		var errs [2]error
+		for i, t := range []int64{6, 7} {
+			i, t := i, t
+			vsched.Go(func() {
+				_, errs[i] = lc.NewTerm(&proto.NewTermRequest{Namespace: ns, Shard: shard, Term: t, Options: opts})
+				if errs[i] == nil && t > answered {
+					answered = t
+				}
+			})
+		}
+		s.Settle()
+		s.Explore(false)
+		stored, _, err := server.VerifLeaderDB(lc).ReadTerm()
+		if err != nil {
+			s.Fail("harness-setup", err.Error())
+			return
+		}
+		if stored < answered {
+			s.Fail("durable-term-below-answered-term", fmt.Sprintf("the node answered NewTerm(%d) (results: NewTerm(6) %v, NewTerm(7) %v); its database holds term %d: a restart brings it back in that term", answered, errs[0], errs[1], stored))
+		}
+		s.Data = fmt.Sprintf("answered=%d stored=%d", answered, stored)
+	}
+}
+
 // closeBody: the node is told to lead (or the shard moves away) and the shards director closes the follower
 // controller while an append of the deposed leader is still in flight on the open stream: the append must be
 // refused (or stored before the close), never take the node down.
@@ -312,6 +369,7 @@ func FencingScenarios(tier string) []sched.Scenario {
 		{Name: "truncate-in-flight-vs-newterm", Cfg: cfg, MaxDev: dev, Body: body(inflightTruncate, 3)},
 		{Name: "snapshot-start-vs-newterm", Cfg: cfg, MaxDev: dev, Body: body(inflightSnapshot, 3)},
 		{Name: "append-in-flight-vs-close", Cfg: cfg, MaxDev: dev, Body: closeBody(3)},
+		{Name: "two-newterms-on-a-leader", Cfg: cfg, MaxDev: dev, Body: twoNewTermsBody()},
 	}
 }
 
@@ -693,7 +751,97 @@ func notificationsOffBody() func(s *vsched.Sched) {
 	}
 }
 
+// notificationsOffRestartBody: the same namespace; a follower is restarted in the middle of a term and the
+// leader re-attaches its stream in that term (no NewTerm): it reads its options back from its database and must
+// still store no notification batches.
+func notificationsOffRestartBody() func(s *vsched.Sched) {
+	return func(s *vsched.Sched) {
+		s.Explore(false)
+		env := oxc.NewEnv(s)
+		net := oxc.NewNet()
+		open := func() (server.FollowerController, kv.Factory, wal.Factory, error) {
+			kvf, err := kv.NewPebbleKVFactory(&kv.FactoryOptions{DataDir: filepath.Join(env.Dir, "n2", "db"), CacheSizeMB: 1})
+			if err != nil {
+				return nil, nil, nil, err
+			}
+			walf := wal.NewWalFactory(&wal.FactoryOptions{BaseWalDir: filepath.Join(env.Dir, "n2", "wal"), Retention: time.Hour, SegmentSize: 64 * 1024, SyncData: true})
+			fc, err := server.NewFollowerController(server.Config{NotificationsRetentionTime: time.Hour}, ns, shard, walf, kvf)
+			return fc, kvf, walf, err
+		}
+		fc, kvf, walf, err := open()
+		if err != nil {
+			s.Fail("harness-setup", err.Error())
+			return
+		}
+		net.Peers["n2"] = fc
+		if _, err := fc.NewTerm(&proto.NewTermRequest{Namespace: ns, Shard: shard, Term: 1, Options: &proto.NewTermOptions{EnableNotifications: false}}); err != nil {
+			s.Fail("harness-setup", err.Error())
+			return
+		}
+		feed := func(from, to int64) bool {
+			stream, err := net.GetReplicateStream(context.Background(), "n2", ns, shard, 1)
+			if err != nil {
+				s.Fail("harness-setup", err.Error())
+				return false
+			}
+			vsched.Go(func() {
+				for {
+					if _, err := stream.Recv(); err != nil {
+						return
+					}
+				}
+			})
+			for o := from; o <= to; o++ {
+				if err := stream.Send(&proto.Append{Term: 1, Entry: entry(1, o), CommitOffset: o}); err != nil {
+					s.Fail("harness-setup", err.Error())
+					return false
+				}
+			}
+			s.Settle()
+			return true
+		}
+		s.Explore(true)
+		if !feed(0, 1) {
+			return
+		}
+		_ = fc.Close()
+		s.Settle()
+		_ = walf.Close()
+		_ = kvf.Close()
+		fc, kvf, walf, err = open()
+		if err != nil {
+			s.Fail("harness-setup", "restart: "+err.Error())
+			return
+		}
+		defer func() {
+			_ = fc.Close()
+			_ = walf.Close()
+			_ = kvf.Close()
+		}()
+		net.Peers["n2"] = fc
+		if !feed(2, 3) {
+			return
+		}
+		s.Explore(false)
+		db := server.VerifFollowerDB(fc)
+		c, _ := db.ReadCommitOffset()
+		var batches []string
+		for _, l := range oxh.DumpDB(db, oxh.DumpOpts{SkipTerm: true}) {
+			if strings.Contains(l, "__oxia/notifications/") {
+				batches = append(batches, l)
+			}
+		}
+		if c == 3 && len(batches) > 0 {
+			s.Fail("notification-batches-in-namespace-without-notifications", fmt.Sprintf("notifications are disabled for the namespace; a follower restarted in the middle of the term (after offsets 0..1) that then applied offsets 2..3 stores %d notification batch(es), which no other replica of the shard has: %v", len(batches), batches))
+		}
+		s.Data = fmt.Sprintf("commit=%d batches=%d", c, len(batches))
+	}
+}
+
 // NotificationsOffScenarios: see notificationsOffBody (C06).
 func NotificationsOffScenarios(tier string) []sched.Scenario {
-	return []sched.Scenario{{Name: "snapshot-restored-follower-in-namespace-without-notifications", Cfg: vsched.Config{MaxSteps: 50000}, MaxDev: 1, Body: notificationsOffBody()}}
+	return []sched.Scenario{
+		{Name: "snapshot-restored-follower-in-namespace-without-notifications", Cfg: vsched.Config{MaxSteps: 50000}, MaxDev: 1, Body: notificationsOffBody()},
+		{Name: "restarted-follower-in-namespace-without-notifications", Cfg: vsched.Config{MaxSteps: 50000}, MaxDev: 1, Body: notificationsOffRestartBody()},
+	}
 }
